@@ -17,8 +17,23 @@ def main(argv):
         return 3
     entry = registry.PROPS[prop]
     if argv[1] == "--replay":
-        from replay import driver
-        return driver.replay_file(argv[2])
+        # re-run the concrete input of a replay file against the real code of the current tree
+        import json
+        from pyvc import vu
+        d = json.load(open(argv[2]))
+        scen = d.get("scenario") or (d.get("replay") or {}).get("native_witness")
+        if not scen:
+            print("REPLAY property=%s file=%s carries no concrete input (the obligation and the verifier's output are in the file)" % (prop, argv[2]))
+            return 2
+        r = vu.native_replay(scen)
+        if r is None or r.get("reproduced") is None:
+            print("REPLAY property=%s no native driver for a scenario of kind %r" % (prop, scen.get("kind")))
+            return 2
+        print("REPLAY property=%s reproduced=%s %s" % (prop, r.get("reproduced"), json.dumps(r.get("detail"), default=str)[:600]))
+        if r.get("reproduced"):
+            print("VIOLATION property=%s replay=%s" % (prop, argv[2]))
+            return 1
+        return 0
     tier = argv[1]
     if tier not in ("quick", "thorough"):
         tier = os.environ.get("VERIF_TIER", "quick")
